@@ -72,6 +72,19 @@ def build_cases(rng, tier):
             c['combo'] = (tbl, bits, mode, array, be)
             c['set'] = i
             cases.append(c)
+    # neither -7 nor -8: the manual's default is an 8-bit scanner, except 7 bit for -Cf / -CF without equivalence classes
+    for i, tbl in enumerate(TABLES):
+        r = rng.fork("dflt%d" % i)
+        seven = ("f" in tbl or "F" in tbl) and "e" not in tbl
+        prog = rulesets.gen_program(r, csize=128 if seven else 256)
+        if not seven:
+            prog['rules'].append({'head': ('plus', ('cls', ('set', False, [('rg', 128, 255)]))), 'bol': False, 'scs': None, 'trail': None})
+        c = engine.make_case("d%d" % i, r.fork("case"), prog=prog, flex_opts=[tbl, "-8"], backend=r.pick(['nr', 'r', 'c99']))
+        c['flex_opts'] = [tbl]
+        c['inputs'] = rulesets.gen_inputs(prog, r.fork("inputs"), count=3, maxlen=60) + ([[97, 200, 233, 98, 255, 10, 128]] if not seven else [])
+        c['combo'] = (tbl, "default-bits", None, False, c['backend'])
+        c['set'] = 2000 + i
+        cases.append(c)
     # few states, wide rows that do not compress: the offsets kept in yy_base / yy_def run far beyond 16 bits
     # (the widths of the emitted arrays are chosen per table from its largest value)
     for i in range(2 if tier == "quick" else 12):
